@@ -823,7 +823,6 @@ func (ts *Service) handleCreateTask(w http.ResponseWriter, r *http.Request) {
 		httpd.HttpError(w, err.Error(), true, http.StatusInternalServerError)
 		return
 	}
-
 	// Associate the task with its template only once it exists.
 	// An association left behind by a rejected request makes a later update of the template
 	// overwrite whatever task gets that ID.
@@ -1825,6 +1824,8 @@ func (ts *Service) handleUpdateTemplate(w http.ResponseWriter, r *http.Request) 
 	// Update all associated tasks
 	err = ts.updateAllAssociatedTasks(original, updated, taskIds)
 	if err != nil {
+		// The associated tasks have been rolled back, the template has to follow.
+		ts.rollbackTemplateUpdate(original, updated, taskIds)
 		httpd.HttpError(w, err.Error(), true, http.StatusInternalServerError)
 		return
 	}
@@ -1838,6 +1839,31 @@ func (ts *Service) handleUpdateTemplate(w http.ResponseWriter, r *http.Request) 
 
 	w.WriteHeader(http.StatusOK)
 	w.Write(httpd.MarshalJSON(t, true))
+}
+
+// rollbackTemplateUpdate restores the original template after updating its associated tasks failed.
+func (ts *Service) rollbackTemplateUpdate(original, updated Template, taskIds []string) {
+	if original.ID == updated.ID {
+		if err := ts.templates.Replace(original); err != nil {
+			ts.diag.Error("error rolling back template", err, keyvalue.KV("template", original.ID))
+		}
+		return
+	}
+	// The ID changed, the original was deleted together with its associations.
+	if err := ts.templates.Create(original); err != nil && err != ErrTemplateExists {
+		ts.diag.Error("error rolling back template", err, keyvalue.KV("template", original.ID))
+	}
+	for _, taskId := range taskIds {
+		if _, err := ts.tasks.Get(taskId); err != nil {
+			continue
+		}
+		if err := ts.templates.AssociateTask(original.ID, taskId); err != nil {
+			ts.diag.Error("error rolling back task association", err, keyvalue.KV("template", original.ID), keyvalue.KV("task", taskId))
+		}
+	}
+	if err := ts.templates.Delete(updated.ID); err != nil {
+		ts.diag.Error("error rolling back template", err, keyvalue.KV("template", updated.ID))
+	}
 }
 
 // Update all associated tasks. Return the first error if any.
